@@ -324,14 +324,14 @@ def _shard_entry(args):
 # ---------------------------------------------------------------- driver
 
 
-SWEEP_ENV_KEYS = ("PYTHONOPTIMIZE", "PYTHONHASHSEED", "PANDAS_COPY_ON_WRITE")
+SWEEP_ENV_KEYS = ("PYTHONOPTIMIZE", "PYTHONHASHSEED", "PANDAS_COPY_ON_WRITE", "VERIF_LOGGING")
 
 
 def sweep_env(seed):
     """the other process configuration every check is also run under: assert statements stripped (python -O), another
-    string-hash seed (set / dict iteration order of strings) and pandas' copy-on-write mode switched on by its documented
-    environment variable"""
-    return {"PYTHONOPTIMIZE": "1", "PYTHONHASHSEED": str(1 + (seed * 7919) % 4000), "PANDAS_COPY_ON_WRITE": "1"}
+    string-hash seed (set / dict iteration order of strings), pandas' copy-on-write mode switched on by its documented
+    environment variable, and the package's logger at DEBUG level (into a sink) instead of silenced"""
+    return {"PYTHONOPTIMIZE": "1", "PYTHONHASHSEED": str(1 + (seed * 7919) % 4000), "PANDAS_COPY_ON_WRITE": "1", "VERIF_LOGGING": "debug"}
 
 
 def sweep_budget(budget):
